@@ -371,6 +371,9 @@ class World:
     def __init__(self, c: Ctx, monitor: Any = None):
         self.c = c
         self.monitor = monitor
+        # futures hash by uid: restart the numbering for every path, otherwise the iteration order of sets of futures -
+        # and with it the scheduler's tie-breaking - would differ between re-executions of the same decision prefix
+        FakeFuture._ids = itertools.count()
         self.pools: List[FakePool] = []
         self.loop = FakeLoop(self)
         self.asyncio = FakeAsyncio(self)
@@ -489,7 +492,8 @@ class World:
                     mon.blocked(set(remaining), via, return_when)
                 f = next((g for g in remaining if not self.is_queued(g)), None)
                 if f is None:
-                    raise HarnessError("the scheduler waits for callables that can never start")
+                    raise HarnessError("the scheduler waits for callables that can never start; trace=%r pools=%r" % (
+                        self.trace[-12:], [(p.max_workers, [(x.label, x.finished) for x in p.running], len(p.queue)) for p in self.pools]))
                 self._finish(f)
                 remaining.remove(f)
             done = set(order) | already
